@@ -1,68 +1,76 @@
-(* C16 (c') - what the lock-set discipline (ClientRace.v) says about the access table of the structs of
-   clients/datasource and clients/resolution regenerated on this run (Generated_ClientAccesses.v). *)
+(* C16 (c') - what the lock-set discipline (ClientRace.v) says about the tables of clients/datasource and
+   clients/resolution regenerated on this run (Generated_ClientAccesses.v), with the accepted exceptions
+   (Generated_ClientExempt.v, written from KNOWN_FINDINGS.d/C16.json).  No statement mentions a struct, field,
+   mutex or function name of the code. *)
 From Coq Require Import List String Bool Arith.
-From Scalibr Require Import Sched.ClientRace Sched.Generated_ClientAccesses.
+From Scalibr Require Import Sched.ClientRace Sched.Generated_ClientAccesses Sched.Generated_ClientExempt.
 Import ListNotations.
 Open Scope string_scope.
 
-(* the complete list of (struct, field) slots with an unprotected conflicting pair of method accesses *)
-Lemma client_unprotected_slots_lemma :
-  unprotected_slots client_accesses =
-    [("MavenRegistryAPIClient", "registries"); ("MavenRegistryAPIClient", "cacheTimestamp");
-     ("OverrideClient", "verDeps"); ("OverrideClient", "pkgVers")].
-Proof. vm_compute. reflexivity. Qed.
+(* the accesses with interprocedural lock sets: a helper called only with the lock held inherits it *)
+Definition eff_accesses : list caccess := effective client_accesses client_calls client_entries.
 
-(* the request cache and the lazily initialised combined client keep every conflicting access under their mutex *)
-Lemma shared_clients_lock_protected_lemma :
-  forallb (fun sf => slot_free client_accesses (fst sf) (snd sf))
-    [("RequestCache", "cache"); ("RequestCache", "calls");
-     ("CombinedNativeClient", "mavenRegistryClient"); ("CombinedNativeClient", "npmRegistryClient");
-     ("CombinedNativeClient", "pypiRegistryClient");
-     ("NPMRegistryAPIClient", "details"); ("NPMRegistryAPIClient", "cacheTimestamp");
-     ("CachedInsightsClient", "packageCache"); ("CachedInsightsClient", "versionCache");
-     ("CachedInsightsClient", "requirementsCache"); ("CachedInsightsClient", "cacheTimestamp")] = true.
-Proof. vm_compute. reflexivity. Qed.
+(* every (struct, field) slot with a conflicting pair of method accesses that share no mutex is an accepted
+   exception; in particular every slot that the code guards with a mutex somewhere - and is not an exception -
+   is guarded everywhere *)
+Lemma shared_clients_race_free_lemma :
+  clients_race_free eff_accesses client_exempt = true /\
+  new_unprotected_slots eff_accesses client_exempt = [] /\
+  forallb (fun s => exempted client_exempt s || slot_free eff_accesses (fst s) (snd s)) (guarded_slots eff_accesses) = true.
+Proof. vm_compute. repeat split; reflexivity. Qed.
+
+(* not vacuous: there are slots guarded by a mutex that are not exceptions, with conflicting accesses *)
+Definition guarded_checked_slots : list (string * string) :=
+  filter (fun s => negb (exempted client_exempt s) &&
+                   existsb (fun a => String.eqb (ca_struct a) (fst s) && String.eqb (ca_field a) (snd s) && writes a) eff_accesses)
+         (guarded_slots eff_accesses).
+
+Lemma guarded_slots_exist_lemma : 2 <= List.length guarded_checked_slots.
+Proof. vm_compute. repeat constructor. Qed.
 
 (* no method appends to a field slice in place without storing the result (the shape behind the repaired
-   MavenRegistryAPIClient race: append(m.registries, m.defaultRegistry) in the read paths), and the only method
-   that writes the Maven registry list is AddRegistry, which the callers run while the client is set up *)
+   registry race, /repo 44702cb0) *)
 Definition in_place_appends : list caccess :=
   filter (fun a => match ca_kind a with AA => true | _ => false end) client_accesses.
 
-Definition writers (s f : string) : list string :=
-  map ca_method (filter (fun a => String.eqb (ca_struct a) s && String.eqb (ca_field a) f && writes a) client_accesses).
+Lemma no_in_place_append_lemma : in_place_appends = [].
+Proof. vm_compute. reflexivity. Qed.
 
-Lemma registries_never_appended_in_place_lemma :
-  in_place_appends = [] /\
-  writers "MavenRegistryAPIClient" "registries" = ["AddRegistry"] /\
-  existsb (fun a => String.eqb (ca_method a) "allRegistries" && String.eqb (ca_field a) "registries") client_accesses = true.
-Proof. vm_compute. repeat split; reflexivity. Qed.
-
-(* the discipline is not blind to the shape: the same table with the reads of allRegistries turned back into
-   in-place appends has unprotected append/append pairs on the registry list *)
+(* the discipline sees the shape: with every read of an unguarded slot turned into an in-place append, unprotected
+   append/append pairs appear *)
 Definition with_in_place_append (a : caccess) : caccess :=
-  if String.eqb (ca_method a) "allRegistries" && String.eqb (ca_field a) "registries"
-  then mkcacc (ca_struct a) (ca_method a) (ca_field a) AA (ca_locks a) (ca_file a) (ca_line a) else a.
+  match ca_kind a, ca_locks a with
+  | AR, [] => mkcacc (ca_struct a) (ca_method a) (ca_field a) AA (ca_locks a) (ca_file a) (ca_line a)
+  | _, _ => a
+  end.
 
 Lemma append_shape_is_detected_lemma :
   existsb (fun p => match ca_kind (fst p), ca_kind (snd p) with AA, AA => true | _, _ => false end)
-          (unprotected_pairs (map with_in_place_append client_accesses)) = true.
+          (unprotected_pairs (map with_in_place_append eff_accesses)) = true.
+Proof. vm_compute. reflexivity. Qed.
+
+(* the discipline sees a dropped lock: with all locks removed the guarded slots are no longer protected *)
+Definition without_clocks (a : caccess) : caccess :=
+  mkcacc (ca_struct a) (ca_method a) (ca_field a) (ca_kind a) [] (ca_file a) (ca_line a).
+
+Lemma dropped_locks_are_detected_lemma :
+  clients_race_free (map without_clocks client_accesses) client_exempt = false.
 Proof. vm_compute. reflexivity. Qed.
 
 (* no slice / map obtained from a function that hands out struct-held memory is mutated in place by its caller *)
 Lemma no_cached_slice_mutated_in_place_lemma :
   cached_mutations client_escapes client_mutations = [] /\
   client_escapes <> [] /\
-  existsb (fun m => String.eqb (m_op m) "slices.SortFunc" && String.eqb (m_origin m) "fresh") client_mutations = true.
+  existsb (fun m => String.eqb (m_origin m) "fresh") client_mutations = true.
 Proof. split; [vm_compute; reflexivity | split; [vm_compute; discriminate | vm_compute; reflexivity]]. Qed.
 
-(* the relation is not blind: if the npm API client's Versions handed out a struct-held list in its Versions
-   field and the resolution client sorted what it got from that call, the pair would be reported *)
+(* the relation is not blind (synthetic records, independent of the code): a function handing out a struct-held
+   list in a result field, and a caller sorting what it got from that call *)
 Definition seeded_escapes : list cescape :=
-  mkesc "Versions" "Versions" "pkgDetails.versions" "datasource/npm_registry.go" 0 :: client_escapes.
+  mkesc "Producer" "List" "x.cached" "synthetic" 0 :: client_escapes.
 Definition seeded_mutations : list cmutate :=
-  mkmut "Versions" "slices.SortFunc" "vers.Versions" "Versions" "Versions" "resolution/npm_registry_client.go" 0 :: client_mutations.
+  mkmut "Consumer" "slices.SortFunc" "got.List" "Producer" "List" "synthetic" 0 :: client_mutations.
 
 Lemma cached_mutation_shape_is_detected_lemma :
-  map m_expr (cached_mutations seeded_escapes seeded_mutations) = ["vers.Versions"].
+  map m_expr (cached_mutations seeded_escapes seeded_mutations) = ["got.List"].
 Proof. vm_compute. reflexivity. Qed.
